@@ -119,7 +119,12 @@ pub fn segment(rng: &mut Rng, class: u64, len: usize, so_far: &[u8]) -> Vec<u8> 
         9 => {
             // runs of a two-letter alphabet whose boundaries sit around the 32 KiB dictionary wrap
             // (32768 k + delta, delta in -3..=260) and whose lengths are often multiples of 258
-            let a = rng.below(256) as u8;
+            // the run byte is often 0x00 / 0xFF (what never-written or saturated memory holds)
+            let a = match rng.below(4) {
+                0 => 0u8,
+                1 => 0xFF,
+                _ => rng.below(256) as u8,
+            };
             let b = a.wrapping_add(1 + rng.below(200) as u8);
             let mut v: Vec<u8> = Vec::with_capacity(len + 600);
             // the first 300 bytes decide what the mirror area of the ring holds
@@ -283,6 +288,55 @@ pub fn ladder(rng: &mut Rng, max_len: usize) -> Vec<u8> {
     body
 }
 
+/// Data whose Adler-32 takes a chosen value (a, b) - in particular 0x00000000 (a legal checksum that looks like
+/// "none"), 0x00000001 (the value of the empty string: a stream that looks as if nothing had been fed), a low half
+/// that lands exactly on the modulus, the largest halves 0xFFF0. Construction: any prefix, 0xFF bytes until the
+/// low sum is within one byte of the target, t zero bytes (each adds the low sum to the high sum; t solves the
+/// high half through a modular inverse, t < 65521), one final byte. Returns the data; its last byte is the one
+/// that makes the low half hit the target.
+pub fn adler_target(rng: &mut Rng, ta: u32, tb: u32, prefix_len: usize) -> Vec<u8> {
+    const P: u64 = 65521;
+    let cls = rng.pick(&[0u64, 0, 3, 6, 7]);
+    let mut v = segment(rng, cls, prefix_len, &[]);
+    let (mut a, mut b) = (1u64, 0u64);
+    for &x in &v {
+        a = (a + x as u64) % P;
+        b = (b + a) % P;
+    }
+    let (ta, tb) = (ta as u64 % P, tb as u64 % P);
+    // final byte value `last` = ta - a (mod P) must fit a byte and leave a != 0 (for the inverse)
+    let mut guard = 0;
+    loop {
+        let last = (ta + P - a) % P;
+        if last <= 255 && a != 0 && guard > 0 {
+            break;
+        }
+        v.push(0xFF);
+        a = (a + 255) % P;
+        b = (b + a) % P;
+        guard += 1;
+        if guard > 600 {
+            break;
+        }
+    }
+    let last = (ta + P - a) % P;
+    // t zeros: b' = b + t*a; then the last byte: a'' = a + last = ta, b'' = b' + ta  ==> t = (tb - ta - b) / a
+    let mut inv = 1u64;
+    let mut base = a % P;
+    let mut e = P - 2;
+    while e > 0 {
+        if e & 1 == 1 {
+            inv = inv * base % P;
+        }
+        base = base * base % P;
+        e >>= 1;
+    }
+    let t = ((tb + 2 * P - ta - b) % P) * inv % P;
+    v.extend(std::iter::repeat(0u8).take(t as usize));
+    v.push(last as u8);
+    v
+}
+
 /// 1..4 concatenated segments.
 pub fn plaintext(rng: &mut Rng, total: usize) -> Vec<u8> {
     let nseg = if total < 8 { 1 } else { rng.range(1, 4) };
@@ -397,4 +451,63 @@ pub fn stream_ops(rng: &mut Rng, n_in: usize, style: u64, flushes: &[i64]) -> Ve
         }
     }
     ops
+}
+
+/// Compressible data that fills the compressor's LZ code buffer (so that a block is closed because the buffer is
+/// tight, not by the 31 KiB rule) and in which about half of the parser steps near any given fill level are of the
+/// fattest kind a lazy parser has: a short match at p is superseded at p + 1 by a match of >= 128 bytes (one step
+/// records a literal AND a long match). Groups of [word soup | plants "x L0 L1 z" | units "x L"], L a fixed
+/// 130-byte block, x cycling through all byte values (a repeat of the same x is > 32 KiB back).
+pub fn fat_step_plain(rng: &mut Rng, groups: usize) -> Vec<u8> {
+    let l = rng.bytes(130);
+    let words: Vec<Vec<u8>> = (0..256).map(|_| { let n = rng.range(3, 8); rng.bytes(n) }).collect();
+    let mut v: Vec<u8> = Vec::with_capacity(groups * 6600 + 200);
+    v.extend_from_slice(&l);
+    let mut x = 0u8;
+    for _ in 0..groups {
+        let sl = rng.range(150, 450);
+        let start = v.len();
+        while v.len() - start < sl {
+            let w = &words[rng.usize_below(256)];
+            v.extend_from_slice(w);
+        }
+        let k = rng.range(30, 50);
+        for j in 0..k {
+            let xx = x.wrapping_add(j as u8);
+            v.extend_from_slice(&[xx, l[0], l[1], l[2] ^ 0x55]);
+        }
+        for _ in 0..k {
+            v.push(x);
+            v.extend_from_slice(&l);
+            x = x.wrapping_add(1);
+        }
+    }
+    v
+}
+
+/// One of the special Adler-32 targets, as (low half, high half).
+pub fn adler_special(rng: &mut Rng) -> (u32, u32) {
+    match rng.below(8) {
+        0 | 1 | 2 => (0, 0),
+        3 | 4 => (1, 0),
+        5 => (0, rng.below(65521) as u32),
+        6 => (rng.below(65521) as u32, 0),
+        _ => (65520, 65520),
+    }
+}
+
+#[cfg(test)]
+mod tests {
+    use super::*;
+    #[test]
+    fn adler_target_hits() {
+        let mut r = Rng::new(7);
+        for _ in 0..200 {
+            let (a, b) = adler_special(&mut r);
+            let n = r.range(0, 900);
+            let d = adler_target(&mut r, a, b, n);
+            let got = crate::refinf::adler32_def(1, &d);
+            assert_eq!(got, (b % 65521) << 16 | (a % 65521), "target ({}, {}) len {}", a, b, d.len());
+        }
+    }
 }
